@@ -7,6 +7,7 @@ parse_component stores conv(value) under exactly that route -- where conv is the
 (value_to_int/float/bool/..., uninterpreted) -- and nothing is silently dropped.  Conversion pairs
 (str(v) / value_to_*(s)) and the whole-section round trip are bounded stand-ins (native, sentinel values)."""
 import copy
+import os
 import z3
 from pyvc.spec import Target, Lemma, State, NULLLOG
 from pyvc.values import Obj, Extern, FlexDict, unflex, Uninterp
@@ -455,6 +456,10 @@ def _parse_back(thunk):
     except BaseException as err:
         if isinstance(err, (KeyboardInterrupt, SystemExit, MemoryError)):
             raise
+        if os.environ.get('PYVC_DEBUG_PARSE'):
+            import traceback
+            print('parse-back failed:', type(err).__name__, getattr(err, 'exc', err))
+            traceback.print_exc()
         return None
 
 
@@ -622,6 +627,117 @@ class StatusSectionRoundTrip(Target):
         return []
 
 
+class VariablesRoundTrip(Target):
+    """variables.conf / variables.d/<platform>.conf: what Dosini._dump_variables stores for each platform, read back by the
+    REAL Dosini.parse_variables, gives the variables that were written: global variables under the platform's global scope,
+    the variables of stage n under stage n (indices with one, two and three digits), for the default platform and another
+    one; each platform goes to its own file."""
+    prop = 'C19'
+    name = 'Dosini._dump_variables/parse_variables'
+    file = DS
+    qualname = 'Dosini._dump_variables'
+    inline_class = {'cls': (DS, 'Dosini')}
+    set_iter = 'permute'           # the stage sections are written in the (arbitrary) order of a set: every order is explored
+    compare_return = False
+    max_paths = 20000
+    trusted = ["configparser keeps option texts unchanged (in-memory table; bounded check below)", "open() for writing succeeds",
+               "Dosini.parse_component (under contract above) -- here an extern: the options of a variables section that are not "
+               "FlowIR options become variables", "_flowir_component_to_dict of an empty blueprint is empty"]
+    assumptions = ["2 platforms (default, hpc); per platform: global variables and the variables of <= 2 stages from the index "
+                   "pool {0, 7, 12, 345} (BOUNDED: dictionary keys); 1..2 variables per scope, values arbitrary strings without newline"]
+    INDICES = [0, 7, 12, 345]
+
+    def setup(self, c):
+        g = c.ghost
+        g['files'] = {}
+        variables = {}
+        for plat in ('default', 'hpc'):
+            scopes = {FlowIR.LabelGlobal: {}, FlowIR.LabelStages: {}}
+            if c.one_of('%s.has_global' % plat, [True, False]):
+                scopes[FlowIR.LabelGlobal]['gvar'] = c.atom('%s.global.gvar' % plat, 'G %s=1;x' % plat, excludes='\n')
+                if c.one_of('%s.second_global' % plat, [False, True]):
+                    scopes[FlowIR.LabelGlobal]['Other-Var'] = c.atom('%s.global.other' % plat, '%(gvar)s/bin', excludes='\n')
+            ns = c.choice('%s.stages' % plat, 3)
+            first = c.choice('%s.first_stage' % plat, len(self.INDICES) - 1) if ns else 0
+            for j in range(ns):
+                idx = self.INDICES[min(first + j, len(self.INDICES) - 1)]
+                scopes[FlowIR.LabelStages][idx] = {'svar': c.atom('%s.stage%d.svar' % (plat, idx), 'S%d' % idx, excludes='\n')}
+            variables[plat] = scopes
+        doc = {FlowIR.FieldVariables: variables, FlowIR.FieldPlatforms: ['default', 'hpc'], FlowIR.FieldBlueprint: {}}
+        cls = Obj('Dosini-class', _flowir_component_to_dict=Extern('_flowir_component_to_dict', lambda c, bp: {}),
+                  parse_component=Extern('parse_component', self._parse_component),
+                  suppressed_warning=Extern('suppressed_warning', lambda c, m: None))
+        import copy
+        st = State(args=[cls, doc, '/inst/conf', True, True], cls=cls, variables=variables)
+        st.want = {p: {FlowIR.LabelGlobal: dict(v[FlowIR.LabelGlobal]), FlowIR.LabelStages: {k: dict(x) for k, x in v[FlowIR.LabelStages].items()}}
+                   for p, v in variables.items()}
+        return st
+
+    @staticmethod
+    def _parse_component(c, options, name, stage_index, *a, **k):
+        # the contract of parse_component for a section that holds only variables: they end up under 'variables'
+        comp = {'name': name, 'stage': stage_index}
+        if options:
+            comp['variables'] = dict(options)
+        return comp
+
+    def externs(self, c, st):
+        g = c.ghost
+        made = []
+
+        def new_parser(c):
+            m = MemoryConfigParser()
+            made.append(m)
+            stub = m.stub()
+            stub.write = Extern('cfg.write', lambda c, f, m=m: g['files'].__setitem__(f.path, m.sections))
+            return stub
+
+        def open_(c, path, mode='r', *a, **k):
+            f = _file_stub()
+            f.path = path
+            return f
+        return {'FlowConfigParser': Extern('FlowConfigParser', new_parser), 'open': Extern('open', open_),
+                'os.path.exists': Extern('os.path.exists', lambda c, p: False)}
+
+    def ensures(self, c, st, out):
+        if out.kind == 'raise':
+            return [('no-exception', False)]
+        from pyvc import sstr as _sstr
+        files = c.ghost['files']
+        by_platform = {}
+        for path, sections in files.items():
+            if path == '/inst/conf/variables.conf':
+                by_platform['default'] = sections
+            elif path.startswith('/inst/conf/variables.d/') and path.endswith('.conf'):
+                name = path[len('/inst/conf/variables.d/'):-len('.conf')]
+                if name != 'default':        # the loader takes the default platform from variables.conf ONLY
+                    by_platform[name] = sections
+        cl = [('each-platform-is-written-to-the-file-the-loader-reads-it-from', set(by_platform) == {'default', 'hpc'} and len(files) == 2)]
+        errs = []
+        loaded = _parse_back(lambda: st.cls.parse_variables({}, by_platform, out_errors=errs))
+        if loaded is None:
+            return cl + [('what-was-written-can-be-parsed', False)]
+        got = loaded.get(FlowIR.FieldVariables, {})
+        ok_glob, ok_stage = True, True
+
+        def same_scope(a, b):
+            a, b = unflex(a) or {}, unflex(b) or {}
+            return set(a) == set(b) and all(isinstance(a[k], (str, _sstr.SStr)) and _sstr.equal(a[k], b[k]) for k in b)
+        for plat, want in st.want.items():
+            gp = unflex(got.get(plat, {})) or {}
+            if not same_scope(gp.get(FlowIR.LabelGlobal, {}), want[FlowIR.LabelGlobal]):
+                ok_glob = False
+            gs = unflex(gp.get(FlowIR.LabelStages, {})) or {}
+            if set(gs) != set(want[FlowIR.LabelStages]) or not all(same_scope(gs[k], want[FlowIR.LabelStages][k]) for k in want[FlowIR.LabelStages]):
+                ok_stage = False
+        return cl + [('what-was-written-can-be-parsed', True), ('no-section-is-reported-invalid', len(errs) == 0),
+                     ('global-variables-are-read-back-under-their-platform', ok_glob),
+                     ('stage-variables-are-read-back-under-their-platform-and-stage-index', ok_stage)]
+
+    def cross_compare(self, *a):
+        return []
+
+
 class ConfigParserValuesBounded:
     """BOUNDED stand-in (native) for the ASSUMED contract of the in-memory parser used by the proofs above: the real
     FlowConfigParser (the repository's subclass of configparser.ConfigParser, as configured by its __init__) writes and
@@ -761,6 +877,6 @@ class InstanceRoundTripNative:
 
 
 TARGETS = [ParseRouting(), KnownOptionsTable(), ValidateComponentFrame(), DiscoverStages(), ParseStage(),
-           OutputSectionRoundTrip(), StatusSectionRoundTrip()]
+           OutputSectionRoundTrip(), StatusSectionRoundTrip(), VariablesRoundTrip()]
 LEMMAS = [KeyTables()]
 BOUNDED = [SectionRoundTrip(), InstanceRoundTripNative(), ConfigParserValuesBounded()]
